@@ -102,6 +102,12 @@ CHECKS = {
                 technique="bounded exhaustive enumeration of timeline programs (all pairs / a fixed slice of triples of atom templates) solved by the real solver in several configurations; exact validation of the reported times and extracted timelines",
                 text="Facts and goals on plain Interval/Impulse predicates and on StateVariable, ReusableResource, ConsumableResource and Agent predicates, with optional bounds, plus every atom of the sv/rr families: origin <= start <= end <= horizon, duration = end - start >= 0, origin <= at <= horizon; 2 (8) configurations.",
                 note="Atoms created through rules are covered by the rule family of C03 when registered."),
+    "C03": dict(engine="progrun", category="exploration", design_ref="DESIGN.md §4 C03",
+                technique="bounded exhaustive enumeration of goal/fact/rule programs (unification, recursion, disjunction) solved by the real solver; validation of the causal structure read from the live solver",
+                text="All combinations of rule-body shapes, facts and goals (plus recursive and mutually recursive predicates and the timeline "
+                     "families) in 2 (8) configurations: every plan atom is active or unified with an active atom of the same predicate with "
+                     "equal arguments, active goals have their rule's flaws in the plan, causal support is acyclic.",
+                note="Recursion depth <= 4, at most 2 facts and 2 top-level goals."),
 }
 
 PENDING_REASON = "check not built yet in this round (planned, see DESIGN.md §4); not claimed until its quick and thorough tiers have run to completion on the unchanged tree"
@@ -158,7 +164,7 @@ ENGINES = [
      "kind_free_text": "exhaustive root-level construction histories on sat_core, truth-table oracle"},
     {"name": "relmc", "path": "harness/relmc.cpp", "serves_properties": ["C11", "C12"],
      "kind_free_text": "exhaustive relation-request enumeration judged on a model grid with pinned variables (real lra/idl/rdl theories)"},
-    {"name": "progrun", "path": "harness/progrun.cpp + lib/riddle.py + lib/fam_*.py", "serves_properties": ["C01", "C02", "C04", "C05", "C06", "C16"],
+    {"name": "progrun", "path": "harness/progrun.cpp + lib/riddle.py + lib/fam_*.py", "serves_properties": ["C01", "C02", "C03", "C04", "C05", "C06", "C16"],
      "kind_free_text": "program-level exhaustive enumeration: Python generators with exact reference semantics, real solver run per program in forked children, validators on the official JSON solution"},
     {"name": "lexmc", "path": "harness/lexmc.cpp", "serves_properties": ["C16", "C18"],
      "kind_free_text": "exhaustive text enumeration through the RIDDLE lexer/parser (reference lexer, AST capture via virtual factories, crash/hang isolation)"},
